@@ -139,6 +139,18 @@ VARIANTS = [
         {"file": DES, "old": "class UDPMessageDeserializer:\n",
          "new": "def _refuse_oversized(buf):\n    if len(buf) > 0x3000:\n        raise ValueError(\"Unreasonably large zerocoded message\")\n\n\n"
                 "class UDPMessageDeserializer:\n"}]},
+    # ------------------------------------------------------------------ wholesale copy of a zero-free prefix
+    {"name": "R2 zero-free prefix copied from a search that skips the first byte", "file": SER, "expect": "C03.R2",
+     "old": "        compressed_buff = bytearray()\n        zero_count = 0\n",
+     "new": "        cut = data.find(b\"\\x00\", 1)\n        if cut < 0:\n            return bytearray(data)\n"
+            "        compressed_buff = bytearray(data[:cut])\n        data = data[cut:]\n        zero_count = 0\n"},
+    {"name": "R2 whole input copied when it merely looks short", "file": SER, "expect": "C03.R2",
+     "old": "        compressed_buff = bytearray()\n        zero_count = 0\n",
+     "new": "        if len(data) < 4:\n            return bytearray(data)\n        compressed_buff = bytearray()\n        zero_count = 0\n"},
+    {"name": "P R2 zero-free prefix copied wholesale (search from the first byte)", "file": SER, "expect": "silent",
+     "old": "        compressed_buff = bytearray()\n        zero_count = 0\n",
+     "new": "        cut = data.find(b\"\\x00\")\n        if cut < 0:\n            return bytearray(data)\n"
+            "        compressed_buff = bytearray(data[:cut])\n        data = data[cut:]\n        zero_count = 0\n"},
     # ------------------------------------------------------------------ documented limits
     {"name": "X decoder run arithmetic off by one (value-level)", "file": DES, "expect": "miss",
      "old": "zero_count = c - 1", "new": "zero_count = c"},
